@@ -34,11 +34,22 @@ func TestVerifC17mqtt(t *testing.T) {
 				vb := vNewBroker(&Spec{MaxAllowedConnection: capN})
 				defer vb.close()
 				cur := map[string]*vClient{} // reference: the connected (accepted, un-superseded, un-dropped) connection per id
+				old := map[string][]*vClient{} // superseded connections whose links are still open
 				var hist []string
 				for step := 0; step < L; step++ {
-					k := c.Choose(2*len(ids), "event")
+					k := c.Choose(3*len(ids), "event")
 					id := ids[k%len(ids)]
-					if k < len(ids) {
+					if k >= 2*len(ids) {
+						// the link of a superseded connection of this id finally ends: its teardown must not touch
+						// the registration of the connection that took over
+						if len(old[id]) == 0 {
+							hist = append(hist, "noop")
+							continue
+						}
+						hist = append(hist, "superseded-link-of-"+id+"-ends")
+						old[id][0].drop()
+						old[id] = old[id][1:]
+					} else if k < len(ids) {
 						hist = append(hist, "connect-"+id)
 						_, takeover := cur[id]
 						cl := vb.connect(id, id == "a") // id a uses clean sessions, b and c persistent ones
@@ -64,6 +75,9 @@ func TestVerifC17mqtt(t *testing.T) {
 							c.Failf("refused-with-wrong-code", "cap %d, history %v: CONNECT of %s refused with code %d (want server unavailable %d)", capN, hist, id, cl.connack, packets.ErrRefusedServerUnavailable)
 						}
 						if wantAccept {
+							if prev, ok := cur[id]; ok {
+								old[id] = append(old[id], prev)
+							}
 							cur[id] = cl
 						}
 					} else {
